@@ -6,9 +6,12 @@ use crate::ops::{Blob, History, Op, Sig};
 
 fn reproduces(h: &History, property: &str, sig: &str) -> bool {
     let res = run_in_thread(h);
+    // Same rule as the batch: the first violation of the property must be the one we are minimising.
     res.found
         .iter()
-        .any(|f| f.v.property == property && signature(property, f) == sig)
+        .find(|f| f.v.property == property)
+        .map(|f| signature(property, f) == sig)
+        .unwrap_or(false)
 }
 
 pub fn minimise(orig: &History, property: &str, sig: &str, budget: usize) -> History {
